@@ -22,7 +22,7 @@ import (
 
 const (
 	fuel       = 3000
-	modelLimit = 1 << 22  // slice elements: above this the model answers "alloc" and the case goes to a child
+	modelLimit = 1 << 20  // slice elements: above this the model answers "alloc" and the case goes to a child
 	childAS    = 3 << 30  // address space of a child
 	memBound   = 64 << 20 // oracle: 64·|b| + 64 MiB
 
@@ -60,6 +60,9 @@ func classify(res, stack string, ty string, in []byte) string {
 		if inSplit && dimsWrap(ty, in) {
 			return "C02.variant-dims-overflow"
 		}
+		if dimsPrealloc(stack) {
+			return "C02.variant-dims-prealloc" // zeroing gigabytes for make([]int32, n) can take longer than the timeout
+		}
 		if inVariant && strings.Contains(stack, "reflect.MakeSlice") || inVariant && strings.Contains(stack, "decodeValue") {
 			return "C02.variant-array-amplification" // 65535 elements per 5 bytes, nested: time as well as memory
 		}
@@ -76,8 +79,7 @@ func classify(res, stack string, ty string, in []byte) string {
 			return "C02.slice-prealloc"
 		case inSlice && strings.Contains(stack, "reflect.MakeSlice") && strings.Index(stack, "ua.decodeSlice") < indexOr(stack, "ua.(*Variant).Decode"):
 			return "C02.slice-prealloc"
-		case inVariant && strings.Contains(stack, "runtime.makeslice") && strings.Index(stack, "runtime.makeslice") < strings.Index(stack, "ua.(*Variant).Decode") &&
-			!strings.Contains(stack[:strings.Index(stack, "ua.(*Variant).Decode")], "reflect."):
+		case dimsPrealloc(stack):
 			return "C02.variant-dims-prealloc"
 		case inVariant:
 			return "C02.variant-array-amplification"
@@ -121,6 +123,20 @@ func dimsWrap(ty string, b []byte) bool {
 		exact.Mul(exact, big.NewInt(int64(d)))
 	}
 	return wrapped == alen && exact.Cmp(big.NewInt(int64(alen))) != 0
+}
+
+// dimsPrealloc: the innermost library frame is (*Variant).Decode calling runtime.makeslice directly
+// (make([]int32, arrayDimensionsLength)), not through reflect.
+func dimsPrealloc(stack string) bool {
+	i := strings.Index(stack, "github.com/gopcua/opcua/ua.")
+	if i < 0 || !strings.HasPrefix(stack[i:], "github.com/gopcua/opcua/ua.(*Variant).Decode") {
+		return false
+	}
+	head := stack[:i]
+	if len(head) > 500 {
+		head = head[len(head)-500:] // the frames directly above the first library frame
+	}
+	return strings.Contains(head, "runtime.makeslice") && !strings.Contains(head, "reflect.")
 }
 
 func indexOr(s, sub string) int {
